@@ -84,20 +84,51 @@ theorem tsErase_wpTypeDefAny (τ : Trivia) (inp : List Char) (sep : Bool) (p : N
   · obtain ⟨h1, h2, h3, h4⟩ := hn
     simp [eraseTypeDef, wpInputDef, tsErase_wpDirs, tsErase_wpIVDs, hk, h1, h2, h3, h4, eraseNames]
 
-/-- the items whose type definitions carry only the components of their kind -/
+theorem tsErase_wpTypeExtAny (τ : Trivia) (inp : List Char) (sep : Bool) (p : Nat) (t : TypeDef) (hn : KindNormal t)
+    (hdesc : t.desc = none) : eraseTypeDef (wpTypeExtAny τ inp sep p t) = eraseTypeDef t := by
+  simp only [KindNormal] at hn
+  simp only [wpTypeExtAny]
+  cases hk : t.kind <;> simp only [hk] at hn ⊢
+  · obtain ⟨h1, h2, h3, h4, h5⟩ := hn
+    simp [eraseTypeDef, wpScalarExt, tsErase_wpDirs, hk, h1, h2, h3, h4, h5, hdesc, eraseNames]
+  · obtain ⟨h3, h4, h5⟩ := hn
+    simp [eraseTypeDef, wpObjExt, tsErase_wpDirs, tsErase_wpNames, tsErase_wpFieldDefs, hk, h3, h4, h5, hdesc]
+  · obtain ⟨h3, h4, h5⟩ := hn
+    simp [eraseTypeDef, wpObjExt, tsErase_wpDirs, tsErase_wpNames, tsErase_wpFieldDefs, hk, h3, h4, h5, hdesc]
+  · obtain ⟨h1, h2, h4, h5⟩ := hn
+    simp only [wpUnionExt]
+    split
+    · rename_i hm
+      have hm' : t.members = [] := by simpa using hm
+      simp [eraseTypeDef, wpUnionExtD, tsErase_wpDirs, hk, h1, h2, h4, h5, hdesc, hm', eraseNames]
+    · simp [eraseTypeDef, wpUnionExtM, tsErase_wpDirs, tsErase_wpNames, hk, h1, h2, h4, h5, hdesc]
+  · obtain ⟨h1, h2, h3, h5⟩ := hn
+    simp [eraseTypeDef, wpEnumExt, tsErase_wpDirs, tsErase_wpEnumVals, hk, h1, h2, h3, h5, hdesc, eraseNames]
+  · obtain ⟨h1, h2, h3, h4⟩ := hn
+    simp [eraseTypeDef, wpInputExt, tsErase_wpDirs, tsErase_wpIVDs, hk, h1, h2, h3, h4, hdesc, eraseNames]
+
+theorem tsErase_wpRoots (τ : Trivia) (inp : List Char) (p : Nat) (rs : List (OpKind × Name × Pos)) :
+    (wpRoots τ inp p rs).map eraseRoot = rs.map eraseRoot :=
+  mapItems_map (rRoot τ) true false (wpRoot τ inp) eraseRoot eraseRoot (fun _ _ _ => rfl) rs p
+
+/-- the items that carry only what their rendering shows: a type definition or extension only the components of its kind;
+    extensions no description -/
 def NormalItem : TsItem → Prop
   | .typeDef t => KindNormal t
-  | .typeExt t => KindNormal t
+  | .typeExt t => KindNormal t ∧ t.desc = none
+  | .schemaExt s => s.desc = none
   | _ => True
 
 theorem tsErase_wpTsItem (τ : Trivia) (inp : List Char) (sep : Bool) (p : Nat) (it : TsItem) (hn : NormalItem it) :
     eraseTsItem (wpTsItem τ inp sep p it) = eraseTsItem it := by
   cases it with
   | typeDef t => simp [wpTsItem, eraseTsItem, tsErase_wpTypeDefAny τ inp sep p t hn]
-  | schemaDef s => rfl
-  | directiveDef d => rfl
-  | schemaExt s => rfl
-  | typeExt t => rfl
+  | schemaDef s => simp [wpTsItem, eraseTsItem, eraseSchemaDef, wpSchemaDef, tsErase_wpDirs, tsErase_wpRoots]
+  | directiveDef d => simp [wpTsItem, eraseTsItem, eraseDirectiveDef, wpDirectiveDef, tsErase_wpIVDs]
+  | schemaExt s =>
+    have hd : s.desc = none := hn
+    simp [wpTsItem, eraseTsItem, eraseSchemaDef, wpSchemaExt, tsErase_wpDirs, tsErase_wpRoots, hd]
+  | typeExt t => simp [wpTsItem, eraseTsItem, tsErase_wpTypeExtAny τ inp sep p t hn.1 hn.2]
 
 theorem mapItems_map_mem {α β γ : Type} (ri : Bool → Nat → α → List Char) (sm sl : Bool) (f : Bool → Nat → α → β)
     (g : β → γ) (g' : α → γ) : ∀ (as : List α) (p : Nat), (∀ a ∈ as, ∀ s p, g (f s p a) = g' a) →
